@@ -261,11 +261,7 @@ int ops_per(int argc, char **argv, FILE *out) {
         if(!bf || !parse_ll(argv[1], &a) || !parse_ll(argv[2], &b) || a < 0 || a > 64) { fputs("bad-op", out); free(bf); return 1; }
         asn_oer_constraints_t ct; memset(&ct, 0, sizeof ct);
         ct.value.width = (unsigned)a; ct.value.positive = b ? 1 : 0; ct.size = -1;
-        if(b && a == 0) {
-            /* finding F5: with a zero length at the very end of the data the decoder reads ptr[size]; do not execute */
-            size_t l = 1; ssize_t r = oer_fetch_length(bf, len, &l);
-            if(r > 0 && l == 0 && (size_t)r == len) { fputs("oob", out); free(bf); return 1; }
-        }
+        /* (finding F5 repaired: the zero-length case is executed; an over-read of the exact-size heap copy is an ASan report) */
         void *sp = 0;
         asn_dec_rval_t rv = INTEGER_decode_oer(0, &asn_DEF_INTEGER, &ct, &sp, bf, len);
         if(rv.code == RC_OK) {
